@@ -15,8 +15,8 @@ RULE = ('object graphs of 1-9 containers (dict, OrderedDict, list, tuple, attrib
         'children point forward (trees, DAGs with sharing) and with probability 0.3 anywhere (cycles, self-loops); paths of 1-5 steps '
         "with 0-3 wildcards (* / **) at every position, plain segments chosen from the keys present or absent, spelled as 'a.*.b' "
         'text and as Path(...) with T.__star__() / T.__starstar__() parts; entries compared by identity (containers) / value (atoms); '
-        'every run under a 5 s alarm. Non-trivial: >= 1 wildcard on a graph with >= 3 containers, or a cyclic graph with **.')
-ASSUMPTIONS = ['sets (hash order) and containers whose element access raises are not generated',
+        'every run under a 5 s alarm; plus mappings / objects with one unreadable child at every position under * / ** / *.key, and assign / delete through 1-4 wildcard levels against a plain loop. Non-trivial: >= 1 wildcard on a graph with >= 3 containers, or a cyclic graph with **.')
+ASSUMPTIONS = ['sets (hash order) are not generated; containers with an unreadable child and Assign / Delete through one wildcard per level are decided against plain-Python references on the implementation side (the graph model has neither)',
                'atoms have no children; identity of atoms is value']
 
 
@@ -54,7 +54,138 @@ def generate(rng, tier):
         textable = all(s[0] != 'P' or (isinstance(s[1], str) and s[1] not in ('*', '**', '')) for s in steps)
         out.append({'cells': cells, 'target': target, 'steps': steps,
                     'spelling': 'text' if (textable and rng.random() < 0.5) else 'path'})
+    import props.c11 as c11
+    for kind in ('dict', 'obj'):
+        for pos in range(4):
+            for inner in (False, True):
+                out.append({'kind': 'flaky', 'shape': [kind, pos, inner]})
+    for _ in range(n // 10):
+        cells, path = c11.broadcast(rng)
+        if any(p[0] == 'X' for p in path):
+            continue                       # ** also matches the root and inner containers: C11 / C12's model decides those
+        out.append({'kind': 'broadcast', 'cells': cells, 'path': path, 'op': rng.choice(['assign', 'delete'])})
     return out
+
+
+# ---------- implementation-side kinds (decided against plain-Python references) ----------
+class Flaky(dict):
+    """a mapping whose access to one key raises"""
+    def __getitem__(self, k):
+        if k == 'broken':
+            raise RuntimeError('cannot read %r' % (k,))
+        return dict.__getitem__(self, k)
+
+
+class FlakyObj:
+    def __init__(self, **kw):
+        self.__dict__.update(kw)
+
+    def __getattribute__(self, k):
+        if k == 'broken':
+            raise RuntimeError('cannot read %r' % (k,))
+        return object.__getattribute__(self, k)
+
+
+def _children_ref(v):
+    """the children a wildcard may enumerate: every child whose access works, in natural order"""
+    out = []
+    if isinstance(v, dict):
+        for k in list(v.keys()):
+            try:
+                out.append(v[k])
+            except Exception:
+                pass
+    elif isinstance(v, (list, tuple)):
+        out.extend(v)
+    elif hasattr(v, '__dict__'):
+        for k in list(object.__getattribute__(v, '__dict__')):
+            try:
+                out.append(getattr(v, k))
+            except Exception:
+                pass
+    return out
+
+
+def _starstar_ref(v):
+    seen, out, queue = {id(v)}, [v], [v]
+    while queue:
+        cur = queue.pop(0)
+        for c in _children_ref(cur):
+            out.append(c)
+            if isinstance(c, (dict, list, tuple)) or hasattr(c, '__dict__'):
+                if id(c) not in seen:
+                    seen.add(id(c))
+                    queue.append(c)
+    return out
+
+
+def _flaky_target(rng_choices):
+    kind, pos, inner = rng_choices
+    entries = [('a', 1), ('c', {'d': 3}), ('e', [4, 5])]
+    entries.insert(pos, ('broken', 2))
+    if kind == 'dict':
+        t = Flaky(entries)
+    else:
+        t = FlakyObj(**dict(entries))
+    return {'x': [t, [7]]} if inner else t
+
+
+def run_flaky(case):
+    import glom
+    out = {'problems': []}
+    t = _flaky_target(case['shape'])
+    base = t['x'][0] if case['shape'][2] else t
+    prefix = 'x.0.' if case['shape'][2] else ''
+    for spec, ref in ((prefix + '*', _children_ref(base)), (prefix + '**', _starstar_ref(base)),
+                      (prefix + '*.d', [3])):
+        try:
+            got = glom.glom(t, spec)
+        except Exception as e:
+            got = 'raise %s' % type(e).__name__
+        if not (isinstance(got, list) and len(got) == len(ref) and all(a is b or a == b for a, b in zip(got, ref))):
+            out['problems'].append('%r on a container with one unreadable child: got %r, the readable children give %r' % (spec, got, ref))
+    return out
+
+
+def run_broadcast(case):
+    """Assign / Delete through one wildcard per level act on every match"""
+    import copy
+    import glom
+    import props.c11 as c11
+    hr = HeapRealiser(case['cells'], c11.class_factory)
+    target = hr.val({'ref': 0})
+    expect = copy.deepcopy(target)
+    depth = len(case['path']) - 1
+    last = case['path'][-1][1]
+
+    def leaves(v, d):
+        if d == 0:
+            return [v]
+        kids = list(v.values()) if isinstance(v, dict) else list(v)
+        return [x for k in kids for x in leaves(k, d - 1)]
+    problems = []
+    ok = True
+    for leaf in leaves(expect, depth):
+        try:
+            key = int(last) if isinstance(leaf, list) else last
+            if case['op'] == 'assign':
+                leaf[key] = 'W'
+            else:
+                del leaf[key]
+        except Exception:
+            ok = False          # some match cannot take the operation: the whole call must fail (checked under C11 / C12)
+    if ok:
+        try:
+            path = c11.build_path(case['path'])
+            if case['op'] == 'assign':
+                glom.assign(target, path, 'W')
+            else:
+                glom.delete(target, path)
+            if target != expect:
+                problems.append('%s through %d wildcards: got %r, acting on every match gives %r' % (case['op'], depth, target, expect))
+        except Exception as e:
+            problems.append('%s through %d wildcards raised %s although every match can take it' % (case['op'], depth, type(e).__name__))
+    return {'problems': problems}
 
 
 def _spec(case):
@@ -80,6 +211,10 @@ def _enc(hr, res):
 
 def run_impl(case):
     import glom
+    if case.get('kind') == 'flaky':
+        return run_flaky(case)
+    if case.get('kind') == 'broadcast':
+        return run_broadcast(case)
     hr = HeapRealiser(case['cells'])
     target = hr.val(case['target'])
     try:
@@ -98,7 +233,18 @@ def wres_coq(r):
     return '(WVal %s)' % gval_coq(v)
 
 
+TRIVIAL = '(mkC14 [] (GA (AInt 1)) [] (Ok (WVal (GA (AInt 1)))))'
+
+
+def direct_oracle(case, out):
+    if out.get('problems'):
+        return '; '.join(out['problems'][:2])
+    return None
+
+
 def coq_case(case, out):
+    if case.get('kind'):
+        return TRIVIAL
     steps = clist('WStar' if s[0] == 'x' else 'WStarStar' if s[0] == 'X' else '(WP %s)' % atom_coq(s[1]) for s in case['steps'])
     if 'ok' in out:
         impl = '(Ok %s)' % wres_coq(out['ok'])
@@ -110,6 +256,8 @@ def coq_case(case, out):
 
 
 def model_dump_term(case):
+    if case.get('kind'):
+        return '0'
     return 'c14_model %s' % coq_case(case, {'raise': 'x'})
 
 
@@ -132,6 +280,8 @@ def _cyclic(cells):
 
 
 def nontrivial(case, out):
+    if case.get('kind'):
+        return True
     wild = [s for s in case['steps'] if s[0] in 'xX']
     if any(s[0] == 'X' for s in wild) and _cyclic(case['cells']):
         return True
@@ -139,6 +289,8 @@ def nontrivial(case, out):
 
 
 def classify(case, out):
+    if case.get('kind'):
+        return case['kind']
     w = sum(1 for s in case['steps'] if s[0] in 'xX')
     tag = 'cyc' if _cyclic(case['cells']) else 'dag'
     if 'raise' in out:
